@@ -42,6 +42,10 @@ type Case struct {
 	Body   string `json:"body,omitempty"`
 	OnDisk bool   `json:"on_disk,omitempty"`
 	Where  string `json:"where,omitempty"`
+	// funcs, long-line family: the case is rebuilt from these
+	Long *longCase `json:"long_line,omitempty"`
+	// cli: the case is rebuilt from these
+	Cli *cliCase `json:"cli,omitempty"`
 }
 
 func q(s string) string { return strconv.Quote(s) }
@@ -165,6 +169,12 @@ func worker(w *runner.W) {
 	if only == "" || only == "funcs" {
 		e.funcsPhase(&unit)
 	}
+	if only == "long" { // diagnosis: the long-line family alone
+		e.longPhase(&unit)
+	}
+	if only == "" || only == "funcs" || only == "cli" {
+		e.cliPhase(&unit)
+	}
 	if only == "" || only == "opt" || strings.Contains(only, "/") {
 		e.optPhase(&unit, only)
 	}
@@ -189,6 +199,8 @@ func replay(w *runner.W, raw json.RawMessage) {
 		e.timePhase()
 	case "funcs":
 		e.funcsReplay(c)
+	case "cli":
+		e.cliReplay(c)
 	default:
 		panic("unknown part " + c.Part)
 	}
@@ -202,6 +214,7 @@ func budget(tier string) time.Duration {
 }
 
 func main() {
+	ensureBinary()
 	setGlobals()
 	runner.Main(&runner.Spec{
 		Name:       "expropt",
@@ -213,7 +226,8 @@ func main() {
 				"(all-empty = what the optimiser probes with, numeric, huge, odd bytes, two real SliceSpaceExpressionContexts; fewer for constant-only programs, see exprgen.Plan); oracle: byte-equal results. " +
 				"(i-time) " + strconv.Itoa(len(timeTemplates())) + " templates around {time live}/{time delta} (bare, nested in helpers, behind a funcs-file function) compiled, then evaluated after the wall clock advanced by >= 2 s: live must lie between the clock readings taken around the evaluation, delta between the elapsed bounds (a frozen value cannot). " +
 				"(ii) funcs files: " + funcsRule(tier) + ". " +
-				"non-trivial = both builds compiled without error and at least one context was compared (for funcs: the definition loaded and the inlined body compiled); an outcome is (part, function or body, results)"
+				"(ii-cli) funcs files through the start-up sequence of " + cliRule(tier) + ". " +
+				"non-trivial = both builds compiled without error and at least one context was compared (for funcs: the definition loaded and the inlined body compiled; for cli: both processes exited with success); an outcome is (part, function or body, results)"
 		},
 		Assumptions: func(string) []string {
 			return []string{
@@ -222,8 +236,10 @@ func main() {
 				"the shared sub-context pool of the range helpers is put into a known state: while compiling, every pooled sub-context's parent is a context whose keys are all \"3\", while evaluating one whose keys are all \"5\" (in a real run they would be contexts of earlier, unrelated evaluations); a helper that resets its sub-context never sees either",
 				"templates that read the clock ({time now|live|delta}) are compiled and evaluated again until both builds ran within one wall-clock second; the clock itself is only read to bracket, never to decide",
 				"funcs files: one space between name and body, no '#' or backslash inside a body, lines are broken only at argument separators (the documentation does not say how other whitespace around a continuation is joined); zero-argument call sites are key lookups and are not generated; a definition that LoadDefinitions rejects even when written on one line is not compared",
+				"long-line family: neither the statement nor docs/usage/funcsfile.md bounds the length of a line of a funcs file, so every definition of a generated file whose body compiles inline is expected to be loaded under its own name whatever the length of its physical lines (up to the largest size of the tier); lines end in \\n (no \\r\\n); the one-definition-per-line reference of the other funcs cases does not apply (it would itself be a long line)",
+				"cli part: the rare binary is built once per run by this harness (`go build -o <tmp>/rare .` in $VERIF_REPO, default /repo; a failed build is a harness error) and removed afterwards; every process gets an explicit environment (PATH, HOME=<scratch>, TZ=UTC, GOMAXPROCS=1, LANG=C and RARE_FUNC_FILES only when that is the delivery) and pipes for stdout/stderr, so colour is off unless --color is given (the terminal default, colour on, is not reachable without a pty); standard error (log lines of rejected definitions, compile errors) is not compared, only stdout and exit success; a process that has not exited after 60 s is reported as a hang",
 				"part (iii) of the statement (concurrent evaluators) is not covered here",
-				"process globals pinned: TZ=UTC, color.Enabled=true, humanize.Enabled=true, termunicode.UnicodeEnabled=true, stdlib.DisableLoad=false, funclib.Additional emptied after every funcs case",
+				"in-process parts: process globals pinned: TZ=UTC, color.Enabled=true, humanize.Enabled=true, termunicode.UnicodeEnabled=true, stdlib.DisableLoad=false, funclib.Additional emptied after every funcs case",
 			}
 		},
 		Worker:         worker,
